@@ -53,7 +53,30 @@ def _toy_min(ctx):
     ctx.log("m", m)
 
 
+def _toy_split(ctx):
+    x = ctx.int("x", 0, 9)
+    a = ctx.choose("a", 3)
+    if a == 0 and x > 4:
+        ctx.log("short")
+        return  # a path with fewer choices than the split depth
+    b = ctx.choose("b", 2, enabled=[0, 1] if x > 2 else [1])
+    c = ctx.choose("c", 2)
+    ctx.log("leaf", a, b, c)
+
+
 def run():
+    e = Explorer(_toy_split).run()
+    assert e.complete and not e.errors
+    total = e.stats.paths
+    pr = Explorer(_toy_split, validate=0, probe_depth=2).run()
+    assert pr.complete and pr.prefixes, pr.errors
+    got = 0
+    for pf in sorted(pr.prefixes):
+        sub = Explorer(_toy_split, forced=(pf, 2)).run()
+        assert sub.complete and not sub.errors, sub.errors
+        got += sub.stats.paths
+    assert got == total, (got, total, sorted(pr.prefixes))
+
     e = Explorer(_toy_tree).run()
     assert e.complete and not e.errors, e.errors
     assert e.stats.paths == 21, e.stats.paths  # (x<10, y<=x, x+y==50) is infeasible: 7 x 3
